@@ -9,9 +9,16 @@ Reference functions of this module (registered below):
   fill_until_stop(e, s, xs, j, n) : state of e after `fill(xs[j]), fill(xs[j+1]), ...` from state s, until a fill signals
                                    LenaStopFill (that value is not filled) or xs[n-1] was filled -- what C05 calls
                                    "filled value by value (until it signals LenaStopFill)"
-  cat_len(kind, seqs, k)          : total number of results of kind ('compute' | 'request' | 'source') of seqs[0..k)
+  stops_until(e, s, xs, j, n)     : ... and some fill on the way signals LenaStopFill
+  cat_len(kinds, seqs, snap, k) / branch_result(kinds, seqs, snap, m) : "the output is the concatenation of the branches'
+                                   results in branch order" without a concatenation function (see below)
   elstates() / state_in(snap, e)  : snapshot of all element states / the state of e in a snapshot (ghost)
-  loop_iter(k)                    : the iterator the for-loop #k of the function runs over (ghost)"""
+  frozen(xs)                      : the items a list has now (ghost snapshot)
+  loop_iter(k) / iter_source(it)  : the iterator the for-loop #k of the function runs over / the list it iterates (ghost)
+
+Engine additions made for this module: pyvc/lib_split.py (builtins map / set), `call_self` in at_call clauses (calls.py),
+list comprehensions over a list of concrete length whose item expression forks (interp.py: listcomp_forking), deep copies
+of tuples mark the copied inner objects (lib.py: lib_deepcopy)."""
 from pyvc.contracts import Contract, LoopSpec, ClassSpec
 
 SP = "lena/core/split.py"
@@ -20,7 +27,7 @@ ZP = "lena/flow/zip.py"
 
 # ---------------------------------------------------------------------------------------------- reference functions
 def _register_spec_functions(ix):
-    from pyvc.smt import T, I, lit_int
+    from pyvc.smt import T, lit_int
     from pyvc.sym import Opaque, Num, Str, Ref
     from pyvc.speclib import lst_term, obj_term, st_term
     from pyvc.interp import Unsupported
@@ -44,43 +51,140 @@ def _register_spec_functions(ix):
             raise Unsupported("loop_iter(%s): that loop has not been entered on this path" % k)
         return it
 
-    def sp_fill_until_stop(ip, st, pos, kws):
-        reg = ip.reg
-        sort = reg.lst("V")
-        reg.ufun("el_fill", ["Obj", "St", "V"], "St")
-        reg.ufun("el_fill_stops", ["Obj", "St", "V"], "Bool")
-        reg.fun_decl("fill_until_stop",
-                     "(define-fun-rec fill_until_stop ((e Obj) (s St) (xs {l}) (j Int) (n Int)) St "
-                     "(ite (>= j n) s (ite (el_fill_stops e s (select (arr_{l} xs) j)) s "
-                     "(fill_until_stop e (el_fill e s (select (arr_{l} xs) j)) xs (+ j 1) n))))".format(l=sort))
-        xs = lst_term(ip, st, pos[2], sort)
-        return Opaque(T("(fill_until_stop %s %s %s %s %s)" % (obj_term(pos[0]).s, st_term(pos[1]).s, xs.s,
-                                                               ip.num(pos[3]).s, ip.num(pos[4]).s), "St"))
+    # fill_until_stop / stops_until: recursive reference functions (recursion on n - j).  Encoding (as diff / upd in C07.py):
+    # an uninterpreted symbol + the base case as a quantified axiom + the defining equation at the ground terms the function
+    # is applied to in clauses (one unfolding each) -- all of them consequences of the recursive definition
+    #   f(e, s, xs, j, n) = base(s)                                  if j >= n
+    #                     = stop(s)                                  if el_fill_stops(e, s, xs[j])
+    #                     = f(e, el_fill(e, s, xs[j]), xs, j + 1, n) otherwise
+    def rec_fun(name, ressort, base, stop):
+        def fn(ip, st, pos, kws):
+            from pyvc.sym import Bool as SBool
+            reg = ip.reg
+            sort = reg.lst("V")
+            reg.need("St")
+            reg.need("Obj")
+            reg.ufun("el_fill", ["Obj", "St", "V"], "St")
+            reg.ufun("el_fill_stops", ["Obj", "St", "V"], "Bool")
+            reg.ufun(name, ["Obj", "St", sort, "Int", "Int"], ressort)
+            ax = T("(forall ((e Obj) (s St) (xs {l}) (j Int) (n Int)) (! (=> (>= j n) (= ({f} e s xs j n) {b})) "
+                   ":pattern (({f} e s xs j n))))".format(l=sort, f=name, b=base), "Bool")
+            if not any(x.s == ax.s for x in reg.axioms):
+                reg.axioms.append(ax)
+            e, s0, xs = obj_term(pos[0]).s, st_term(pos[1]).s, lst_term(ip, st, pos[2], sort).s
+            j, n = ip.num(pos[3]).s, ip.num(pos[4]).s
+            app = "({f} {e} {s} {xs} {j} {n})".format(f=name, e=e, s=s0, xs=xs, j=j, n=n)
+            if not ip.bound_stack:
+                x = "(select (arr_{l} {xs}) {j})".format(l=sort, xs=xs, j=j)
+                d = T("(=> (< {j} {n}) (= {app} (ite (el_fill_stops {e} {s} {x}) {stop} "
+                      "({f} {e} (el_fill {e} {s} {x}) {xs} (+ {j} 1) {n}))))".format(
+                          j=j, n=n, app=app, e=e, s=s0, x=x, stop=stop.replace("s", s0) if stop == "s" else stop,
+                          f=name, xs=xs), "Bool")
+                if not any(h.s == d.s for h in st.pc):
+                    st.pc.append(d)          # the definition at these arguments
+            t = T(app, ressort)
+            return SBool(t) if ressort == "Bool" else Opaque(t)
+        return fn
+    sp_fill_until_stop = rec_fun("fill_until_stop", "St", "s", "s")
+    sp_stops_until = rec_fun("stops_until", "Bool", "false", "true")
+
+    def sp_iter_source(ip, st, pos, kws):
+        """iter_source(it): the list object a list iterator runs over"""
+        from pyvc.sym import IterCell
+        it = pos[0]
+        live = getattr(st.heap[it.cid], "live", None) if isinstance(it, Ref) and isinstance(st.heap.get(it.cid), IterCell) else None
+        if live is None:
+            raise Unsupported("iter_source: not an iterator over a list object")
+        return live
+
+    def sp_frozen(ip, st, pos, kws):
+        """frozen(xs): the items a list has now (an immutable snapshot: later changes of the list do not affect it)"""
+        return ip.lst_view(lst_term(ip, st, pos[0]))
+
+    # ---- concatenation of the branches' results, stated without a concatenation function: with
+    #   L(n) = len(res(0)) + ... + len(res(n-1))          (cat_len: recursive on n; encoded as above)
+    # "out is res(0) + res(1) + ... + res(n-1)" reads  len(out) == L(n)  and  out[L(m) + q] == res(m)[q]  for m < n, q < len(res(m)).
+    # res(m) = branch_result(kind, seqs[m], snap[seqs[m]]): what a branch of that kind delivers when it is invoked without
+    # (further) input -- 'source': its flow, 'fill_compute': compute(), 'fill_request': request(), 'sequence': run([]), any other
+    # kind: nothing; kind = one of these literals (all branches of the same kind) or the m-th item of a list of kinds
+    KINDS = ("source", "fill_compute", "fill_request", "sequence")
+
+    def _res_decl(reg):
+        lv = reg.lst("V")
+        reg.need_val()
+        reg.need("St")
+        reg.need("Obj")
+        reg.ufun("el_source", ["Obj"], lv)
+        reg.ufun("el_compute", ["Obj", "St"], lv)
+        reg.ufun("el_request", ["Obj", "St"], lv)
+        reg.ufun("el_run", ["Obj", lv], lv)
+        empty = reg.l_empty_canonical(lv).s
+        for k in ("source", "fill_compute", "fill_request", "sequence"):
+            reg.key(k)
+        reg.fun_decl("branch_result",
+                     "(define-fun branch_result ((t Key) (e Obj) (s St)) {lv} "
+                     "(ite (= t |key:source|) (el_source e) "
+                     "(ite (= t |key:fill_compute|) (el_compute e s) "
+                     "(ite (= t |key:fill_request|) (el_request e s) "
+                     "(ite (= t |key:sequence|) (el_run e {empty}) {empty})))))".format(lv=lv, empty=empty))
+        return lv
+
+    def _kind_at(ip, st, kinds, m):
+        """SMT text of the kind of branch m: a literal kind, or kinds[m]"""
+        if isinstance(kinds, Str):
+            if kinds.s not in KINDS:
+                raise Unsupported("branch kind %r" % kinds.s)
+            return ip.reg.key(kinds.s).s
+        t = lst_term(ip, st, kinds, ip.reg.lst("Key"))
+        return "(select (arr_%s %s) %s)" % (t.sort, t.s, m)
+
+    def sp_branch_result(ip, st, pos, kws):
+        """branch_result(kinds, seqs, snap, m): the values branch m delivers (see above)"""
+        lv = _res_decl(ip.reg)
+        lo = ip.reg.lst("Obj")
+        ss = lst_term(ip, st, pos[1], lo)
+        m = ip.num(pos[3]).s
+        k = _kind_at(ip, st, pos[0], m)
+        e = "(select (arr_%s %s) %s)" % (lo, ss.s, m)
+        t = T("(branch_result %s %s (select %s %s))" % (k, e, pos[2].t.s, e), lv)
+        return ip.lst_view(t)
 
     def sp_cat_len(ip, st, pos, kws):
-        """cat_len(kind, seqs, k): sum of len(el_<kind>(seqs[m], elstate(seqs[m]))) for m < k (states as they are now)"""
-        from pyvc.calls import elem_state
+        """cat_len(kinds, seqs, snap, n): total number of values branches 0 .. n-1 deliver"""
         reg = ip.reg
-        if not isinstance(pos[0], Str) or pos[0].s not in ("compute", "request", "source"):
-            raise Unsupported("cat_len: kind must be 'compute', 'request' or 'source'")
-        kind = pos[0].s
-        lv, lo = reg.lst("V"), reg.lst("Obj")
-        reg.need("St")
-        if kind == "source":
-            reg.ufun("el_source", ["Obj"], lv)
-            item = "(len_{lv} (el_source (select (arr_{lo} ss) (- n 1))))"
+        lv = _res_decl(reg)
+        lo, lk = reg.lst("Obj"), reg.lst("Key")
+        ss = lst_term(ip, st, pos[1], lo)
+        snap, n = pos[2].t.s, ip.num(pos[3]).s
+        if isinstance(pos[0], Str):
+            if pos[0].s not in KINDS:
+                raise Unsupported("branch kind %r" % pos[0].s)
+            f = "cat_len_" + pos[0].s
+            reg.ufun(f, [lo, "(Array Obj St)", "Int"], "Int")
+            args, qv, qargs = "%s %s" % (ss.s, snap), "(ss %s) (es (Array Obj St))" % lo, "ss es"
+            kind = reg.key(pos[0].s).s
         else:
-            reg.ufun("el_" + kind, ["Obj", "St"], lv)
-            item = "(len_{lv} (el_%s (select (arr_{lo} ss) (- n 1)) (select es (select (arr_{lo} ss) (- n 1)))))" % kind
-        name = "cat_len_" + kind
-        reg.fun_decl(name, ("(define-fun-rec {name} ((ss {lo}) (es (Array Obj St)) (n Int)) Int "
-                            "(ite (<= n 0) 0 (+ ({name} ss es (- n 1)) " + item + ")))").format(name=name, lo=lo, lv=lv))
-        if "$elst" not in st.env:
-            elem_state(ip, st, Opaque(reg.new("anyel", "Obj")))
-        return Num(T("(%s %s %s %s)" % (name, lst_term(ip, st, pos[1], lo).s, st.env["$elst"].t.s, ip.num(pos[2]).s), "Int"))
+            f = "cat_len_kinds"
+            reg.ufun(f, [lk, lo, "(Array Obj St)", "Int"], "Int")
+            ks = lst_term(ip, st, pos[0], lk)
+            args, qv, qargs = "%s %s %s" % (ks.s, ss.s, snap), "(ks %s) (ss %s) (es (Array Obj St))" % (lk, lo), "ks ss es"
+            kind = "(select (arr_%s %s) (- %s 1))" % (lk, ks.s, n)
+        # the base case (quantified, non-recursive); the recursive step at the ground arguments of this application
+        ax = T("(forall ({qv} (n Int)) (! (=> (<= n 0) (= ({f} {qa} n) 0)) :pattern (({f} {qa} n))))".format(qv=qv, f=f, qa=qargs), "Bool")
+        if not any(x.s == ax.s for x in reg.axioms):
+            reg.axioms.append(ax)
+        app = "(%s %s %s)" % (f, args, n)
+        if not ip.bound_stack:
+            e = "(select (arr_%s %s) (- %s 1))" % (lo, ss.s, n)
+            d = T("(=> (> {n} 0) (= {app} (+ ({f} {args} (- {n} 1)) (len_{lv} (branch_result {k} {e} (select {es} {e}))))))".format(
+                n=n, app=app, f=f, args=args, lv=lv, k=kind, e=e, es=snap), "Bool")
+            if not any(h.s == d.s for h in st.pc):
+                st.pc.append(d)
+        return Num(T(app, "Int"))
 
     for name, fn in [("elstates", sp_elstates), ("state_in", sp_state_in), ("loop_iter", sp_loop_iter),
-                     ("fill_until_stop", sp_fill_until_stop), ("cat_len", sp_cat_len)]:
+                     ("fill_until_stop", sp_fill_until_stop), ("stops_until", sp_stops_until), ("frozen", sp_frozen), ("iter_source", sp_iter_source),
+                     ("cat_len", sp_cat_len), ("branch_result", sp_branch_result)]:
         ix.spec_names[name] = fn
 
 
@@ -97,7 +201,8 @@ FINAL = "fill_until_stop({e}, state_in(_S0, {e}), %s, 0, %s)" % (XS, N)
 REM = "fill_until_stop({e}, elstate({e}), %s, {p}, %s)" % (XS, N)
 BLOCK = ["_B >= 0", "len(orig_buf) == pulled(flow) - _B", "pulled(flow) <= %s" % N,
          "all(orig_buf[q] == %s[_B + q] for q in range(len(orig_buf)))" % XS]
-BUF = ["len(buf) == len(orig_buf)", "all(buf[q] == orig_buf[q] for q in range(len(buf)))"]
+# C04: the list a branch consumes was made for it in this very turn (a deep copy), unless it is the last active branch
+OWN_COPY = "(not self._copy_buf or n_of_active_seqs - ind == 1 or (made_in_iteration({x}, 1) and is_deep_copy({x})))"
 OTHERS = "all(implies(k != ind, elstate({a}[k]) == state_in(_blk, {a}[k])) for k in range(len({a})))".format(a=A)
 
 
@@ -108,13 +213,50 @@ def yield_loop(k, extra=()):
                     init_ghost={"_o%d" % k: "len(out)"}, ghost={"_o%d" % k: "Int"})
 
 
+def cat_spec(kinds, seqs, snap, n, with_chain=True):
+    """`out` is the concatenation of the results of branches 0 .. n-1, in branch order (see cat_len above)"""
+    L = lambda m: "cat_len(%s, %s, %s, %s)" % (kinds, seqs, snap, m)
+    R = "branch_result(%s, %s, %s, m)" % (kinds, seqs, snap)
+    cl = ["len(out) == " + L(n), "all(%s == %s + len(%s) for m in range(%s))" % (L("m + 1"), L("m"), R, n),
+          # (by position p of the output: branch m owns the positions L(m) <= p < L(m + 1))
+          "all(all(implies(%s <= p and p < %s, out[p] == %s[p - %s]) for p in range(len(out))) for m in range(%s))"
+          % (L("m"), L("m + 1"), R, L("m"), n)]
+    if with_chain:
+        # (auxiliary, for the induction over the branches: the lengths add up and stay within the output so far)
+        cl.append("all(%s <= len(out) for m in range(%s))" % (L("m + 1"), n))
+    return cl
+
+
+def yield_all(k):
+    """a loop `for val in <result of a branch>: yield val` inside a loop over branches: the output so far stays, and grows by
+    exactly that result, in order"""
+    return LoopSpec(invariant=["len(out) == _o%d + _i" % k,
+                               "all(implies(p >= _o%d, out[p] == content(loop_iter(%d))[p - _o%d]) for p in range(len(out)))" % (k, k, k),
+                               "all(out[q] == _p%d[q] for q in range(_o%d))" % (k, k)],
+                    init_ghost={"_o%d" % k: "len(out)", "_p%d" % k: "frozen(out)"})
+
+
 def register(ix):
     _register_spec_functions(ix)
-    register_run_schedule(ix)
+    # bufsize None: `whole input flow is materialized in the buffer` (one block)
+    ix.add_class(ClassSpec("Split_whole", SP, alias_of="Split",
+                           fields={"_seqs": "Lst[Obj]", "_seq_types": "Lst[Key]", "_copy_buf": "Bool", "_bufsize": "None"},
+                           invariant=["len(self._seqs) == len(self._seq_types)"]))
+    register_run_schedule(ix, whole=False)
+    register_run_schedule(ix, whole=True)
+    register_run_empty(ix)
+    register_run_one_fc(ix)
+    register_run_one_source(ix)
+    register_run_one_fr(ix)
+    register_common_type(ix)
+    register_zip(ix)
+    register_conversion(ix)
+    register_init(ix)
+    register_zip_init(ix)
 
 
-def register_run_schedule(ix):
-    """Split.run, any number of branches of any kind, integer bufsize.  Clause by clause from the docstring of run / C03:
+def register_run_schedule(ix, whole):
+    """Split.run, any number of branches of any kind, integer bufsize / bufsize None.  Clause by clause from the docstring of run / C03:
       * `The flow is divided into subslices of bufsize`: block k is content(flow)[_B : pulled(flow)], read at once;
       * `Each subslice is processed by sequences in the order of their initializer list`;
       * Source: called in the first block (or the final pass of an empty flow) only, all its values are yielded;
@@ -133,14 +275,36 @@ def register_run_schedule(ix):
     I1 = "all(implies({ty}[k] == 'fill_compute', {fin} == {rem}) for k in range(len({a})))".format(
         ty=TY, a=A, fin=FINAL.format(e=A + "[k]"), rem=REM.format(e=A + "[k]", p="(pulled(flow) if k < ind else _B)"))
     DA = DISTINCT.format(l=A)
-    # during the turn of branch `ind` the other branches stay as they were when the turn began (_blk)
-    fill_fc = LoopSpec(invariant=["not stopped", OTHERS, "%s == %s" % (FINAL.format(e="seq"), REM.format(e="seq", p="_B + _i"))])
-    fill_fr = LoopSpec(invariant=["not stopped", OTHERS,
-        "fill_until_stop(seq, state_in(_blk, seq), {xs}, _B, pulled(flow)) == "
-        "fill_until_stop(seq, elstate(seq), {xs}, _B + _i, pulled(flow))".format(xs=XS)])
+    # during the turn of branch `ind` the other branches stay as they were when the turn began (_blk); the fill loop leaves
+    # the flag `stopped` alone unless it breaks
+    STOPS = ("stops_until(seq, state_in(_blk, seq), {xs}, _B, pulled(flow)) == "
+             "stops_until(seq, elstate(seq), {xs}, _B + _i, pulled(flow))".format(xs=XS))
+    fill_fc = LoopSpec(invariant=["stopped == _st3", OTHERS, STOPS,
+                                  "%s == %s" % (FINAL.format(e="seq"), REM.format(e="seq", p="_B + _i"))],
+                       init_ghost={"_st3": "stopped"})
+    fill_fr = LoopSpec(invariant=["stopped == _st5", OTHERS, STOPS,
+                                  "fill_until_stop(seq, state_in(_blk, seq), {xs}, _B, pulled(flow)) == "
+                                  "fill_until_stop(seq, elstate(seq), {xs}, _B + _i, pulled(flow))".format(xs=XS)],
+                       init_ghost={"_st5": "stopped"})
+    # one turn of the branch loop (ghosts _a1, _t1, _ind1, _blk: the active branches, their kinds, the index and the element
+    # states when the turn began): the branch whose turn it was is DROPPED iff it is a Source or a fill/compute or
+    # fill/request branch one of whose fills signalled LenaStopFill on this block; otherwise it is KEPT and the next branch
+    # is up; all other branches keep their places
+    E1, T1 = "_a1[_ind1]", "_t1[_ind1]"
+    KEPT = ("(len({a}) == len(_a1) and ind == _ind1 + 1 and "
+            "all({a}[k] is _a1[k] and {ty}[k] == _t1[k] for k in range(len({a}))))").format(a=A, ty=TY)
+    DROPPED = ("(len({a}) == len(_a1) - 1 and ind == _ind1 and "
+               "all({a}[k] is _a1[k if k < ind else k + 1] and {ty}[k] == _t1[k if k < ind else k + 1] "
+               "for k in range(len({a}))))").format(a=A, ty=TY)
+    MUST_DROP = ("({t} == 'source' or (({t} == 'fill_compute' or {t} == 'fill_request') and "
+                 "stops_until({e}, state_in(_blk, {e}), {xs}, _B, pulled(flow))))").format(t=T1, e=E1, xs=XS)
+    TURN = ["_ind1 == -1 or %s or %s" % (KEPT, DROPPED), "_ind1 == -1 or (%s == %s)" % (DROPPED, MUST_DROP)]
+    tag = "schedule, bufsize None" if whole else "schedule"
     ix.add(Contract(
-        SP, "Split.run", qualkey="Split.run#schedule", name="Split.run[schedule]", props=["C03", "C04", "C05"],
-        params={"self": "Self[Split]", "flow": "Iter[V]"}, generator=True, yields="V", ghost={"elstate": True},
+        SP, "Split.run", qualkey="Split.run#" + tag.replace(", ", "-").replace(" ", "-"), name="Split.run[%s]" % tag,
+        props=["C03", "C04", "C05"],
+        params={"self": "Self[Split_whole]" if whole else "Self[Split]", "flow": "Iter[V]"}, generator=True, yields="V",
+        ghost={"elstate": True},
         requires=["pulled(flow) == 0", DISTINCT.format(l="self._seqs")],
         loops={
             0: LoopSpec(invariant=["0 <= n_of_active_seqs", "n_of_active_seqs == len(%s)" % A, "n_of_active_seqs == len(%s)" % TY,
@@ -151,12 +315,14 @@ def register_run_schedule(ix):
                                    "flow_was_empty implies all(elstate({a}[k]) == state_in(_S0, {a}[k]) "
                                    "for k in range(len({a})))".format(a=A)],
                         init_ghost={"_maxpull": "0", "_nblk": "0", "_S0": "elstates()"},
-                        body_ghost={"_maxpull": "_maxpull + self._bufsize", "_nblk": "_nblk + 1", "_B": "pulled(flow)"},
+                        body_ghost={"_maxpull": N if whole else "_maxpull + self._bufsize", "_nblk": "_nblk + 1", "_B": "pulled(flow)"},
                         ghost={"_maxpull": "Int", "_nblk": "Int", "_B": "Int"},
                         decreases="len(content(flow)) - pulled(flow)"),
             1: LoopSpec(invariant=inner + ["_nblk >= 1", NOSRC.format(n="ind"),
-                                           "_nblk == 1 or " + NOSRC.format(n="len(%s)" % TY), DA, I1],
-                        body_ghost={"_blk": "elstates()"},
+                                           "_nblk == 1 or " + NOSRC.format(n="len(%s)" % TY), DA, I1] + TURN,
+                        init_ghost={"_blk": "elstates()", "_a1": "frozen(%s)" % A, "_t1": "frozen(%s)" % TY, "_ind1": "-1"},
+                        body_ghost={"_blk": "elstates()", "_a1": "frozen(%s)" % A, "_t1": "frozen(%s)" % TY, "_ind1": "ind"},
+                        ghost={"_a1": "Lst[Obj]", "_t1": "Lst[Key]", "_ind1": "Int"},
                         decreases="n_of_active_seqs - ind"),
             2: yield_loop(2), 3: fill_fc, 4: yield_loop(4), 5: fill_fr, 6: yield_loop(6), 7: yield_loop(7),
             8: LoopSpec(invariant=[
@@ -172,18 +338,18 @@ def register_run_schedule(ix):
         at_call={
             # a branch is filled with the values of the current block, in order (value _i of the block in the _i-th call),
             # from a buffer made for it (C04)
-            "fill": ["call_self is %s[ind]" % A, "call_args[0] == %s[_B + _i]" % XS, "call_args[0] == buf[_i]",
-                     "not self._copy_buf or n_of_active_seqs - ind == 1 or (made_in_iteration(buf, 1) and is_deep_copy(buf))",
+            "fill": ["call_self is %s[ind]" % A, "call_args[0] == %s[_B + _i]" % XS,
+                     "in_loop(3) implies " + OWN_COPY.format(x="iter_source(loop_iter(3))"),
+                     "in_loop(5) implies " + OWN_COPY.format(x="iter_source(loop_iter(5))"),
                      "%s[ind] == 'fill_compute' or %s[ind] == 'fill_request'" % (TY, TY)],
             # a plain Sequence runs on the whole block
-            "run": ["in_loop(8) implies flow_was_empty and len(call_args[0]) == 0 and %s[_i] == 'sequence'" % TY,
+            "run": ["in_loop(8) implies flow_was_empty and len(call_args[0]) == 0 and call_self is %s[_i] and %s[_i] == 'sequence'" % (A, TY),
                     "not in_loop(8) implies call_self is %s[ind] and %s[ind] == 'sequence'" % (A, TY),
                     "not in_loop(8) implies len(call_args[0]) == pulled(flow) - _B and "
                     "all(call_args[0][q] == %s[_B + q] for q in range(len(call_args[0])))" % XS,
-                    "not in_loop(8) implies not self._copy_buf or n_of_active_seqs - ind == 1 or "
-                    "(made_in_iteration(call_args[0], 1) and is_deep_copy(call_args[0]))"],
+                    "not in_loop(8) implies " + OWN_COPY.format(x="call_args[0]")],
             # a Source produces its complete flow the first time it is reached
-            "__call__": ["in_loop(8) implies flow_was_empty and %s[_i] == 'source'" % TY,
+            "__call__": ["in_loop(8) implies flow_was_empty and call_self is %s[_i] and %s[_i] == 'source'" % (A, TY),
                          "not in_loop(8) implies _nblk == 1 and call_self is %s[ind] and %s[ind] == 'source'" % (A, TY)],
             # fill/compute: computed when everything it accepts has been filled -- the same state whatever bufsize
             "compute": ["elstate(call_self) == " + FINAL.format(e="call_self"),
@@ -191,11 +357,640 @@ def register_run_schedule(ix):
                         "not in_loop(8) implies call_self is %s[ind] and %s[ind] == 'fill_compute'" % (A, TY)],
             # fill/request: requested after every block, filled with exactly that block (until it signalled LenaStopFill)
             "request": ["in_loop(8) implies flow_was_empty and elstate(call_self) == state_in(_S0, call_self) "
-                        "and %s[_i] == 'fill_request'" % TY,
+                        "and call_self is %s[_i] and %s[_i] == 'fill_request'" % (A, TY),
                         "not in_loop(8) implies call_self is %s[ind] and %s[ind] == 'fill_request'" % (A, TY),
                         "not in_loop(8) implies elstate(call_self) == "
                         "fill_until_stop(call_self, state_in(_blk, call_self), %s, _B, pulled(flow))" % XS],
         },
         ensures=["pulled(flow) == %s" % N],
         modifies=["flow"],
-        notes="integer bufsize; branches are pairwise different objects"))
+        notes=("bufsize None (one block); " if whole else "integer bufsize; ") + "branches are pairwise different objects"))
+
+
+def register_run_empty(ix):
+    """C03: `on an empty flow every branch is still invoked exactly once` / run: `If the flow was empty, each call, compute,
+    request or run is called nevertheless`: the output is, in branch order, the complete flow of each Source, compute() of
+    each fill/compute branch, request() of each fill/request branch and run([]) of each Sequence, every branch in the state
+    it had at entry."""
+    for whole in (False, True):
+        tag = "empty flow, bufsize None" if whole else "empty flow"
+        S0 = "old(elstates())"
+        ix.add(Contract(
+            SP, "Split.run", qualkey="Split.run#" + tag.replace(", ", "-").replace(" ", "-"), name="Split.run[%s]" % tag,
+            props=["C03"],
+            params={"self": "Self[Split_whole]" if whole else "Self[Split]", "flow": "Iter[V]"}, generator=True, yields="V",
+            ghost={"elstate": True},
+            requires=["pulled(flow) == 0", "%s == 0" % N, DISTINCT.format(l="self._seqs")],
+            loops={
+                0: LoopSpec(invariant=["flow_was_empty", "pulled(flow) == 0", "len(out) == 0",
+                                       "same(%s, self._seqs)" % A, "same(%s, self._seq_types)" % TY,
+                                       "all(elstate({a}[k]) == state_in(_S0, {a}[k]) for k in range(len({a})))".format(a=A)],
+                            init_ghost={"_S0": "elstates()"}),
+                # (no block is ever started on an empty flow: the bodies of the block loops are unreachable)
+                1: LoopSpec(invariant=[]), 2: LoopSpec(invariant=[]), 3: LoopSpec(invariant=[]), 4: LoopSpec(invariant=[]),
+                5: LoopSpec(invariant=[]), 6: LoopSpec(invariant=[]), 7: LoopSpec(invariant=[]),
+                8: LoopSpec(invariant=cat_spec(TY, A, "_S0", "_i") + [
+                    "all(implies(k >= _i, elstate({a}[k]) == state_in(_S0, {a}[k])) for k in range(len({a})))".format(a=A)]),
+                9: yield_all(9), 10: yield_all(10), 11: yield_all(11), 12: yield_all(12),
+            },
+            ensures=cat_spec("self._seq_types", "self._seqs", S0, "len(self._seqs)", with_chain=False),
+            modifies=["flow"],
+            notes="empty flow; branches are pairwise different objects"))
+
+
+def register_run_one_fc(ix):
+    """C05: `the results are identical whether the chain is ... a branch of a Split with any bufsize, or an explicit
+    FillComputeSeq filled value by value (until it signals LenaStopFill) and then computed`.  A Split whose only branch is a
+    fill/compute sequence e yields exactly  compute()  of e filled with the flow until it stops -- whatever bufsize (an
+    integer >= 1 or None), also on an empty flow."""
+    E = "self._seqs[0]"
+    FIN = FINAL.format(e=E)
+    RES = "el_compute(%s, %s)" % (E, FIN)
+    DONE = "(len(out) == len({r}) and all(out[q] == {r}[q] for q in range(len(out))))".format(r=RES)
+    SHAPE = ["0 <= n_of_active_seqs <= 1", "n_of_active_seqs == len(%s)" % A, "n_of_active_seqs == len(%s)" % TY,
+             "n_of_active_seqs == 1 implies %s[0] is %s and %s[0] == 'fill_compute' and len(out) == 0" % (A, E, TY),
+             "n_of_active_seqs == 0 implies " + DONE]
+    copy_out = lambda k: LoopSpec(invariant=["len(out) == _i", "all(out[q] == content(loop_iter(%d))[q] for q in range(_i))" % k])
+    none = LoopSpec(invariant=[])
+    for whole in (False, True):
+        tag = "one fill/compute branch, bufsize None" if whole else "one fill/compute branch"
+        ix.add(Contract(
+            SP, "Split.run", qualkey="Split.run#" + tag.replace(", ", "-").replace(" ", "-").replace("/", "-"),
+            name="Split.run[%s]" % tag, props=["C05", "C03"],
+            params={"self": "Self[Split_whole]" if whole else "Self[Split]", "flow": "Iter[V]"}, generator=True, yields="V",
+            ghost={"elstate": True},
+            requires=["pulled(flow) == 0", "len(self._seqs) == 1", "self._seq_types[0] == 'fill_compute'"],
+            loops={
+                0: LoopSpec(invariant=SHAPE + ["n_of_active_seqs == 1 implies %s == %s" % (FIN, REM.format(e=E, p="pulled(flow)"))],
+                            init_ghost={"_S0": "elstates()"}, body_ghost={"_B": "pulled(flow)"}, ghost={"_B": "Int"},
+                            decreases="len(content(flow)) - pulled(flow)"),
+                1: LoopSpec(invariant=SHAPE + BLOCK + ["0 <= ind <= n_of_active_seqs", "len(orig_buf) >= 1",
+                                                       "n_of_active_seqs == 1 implies %s == %s" % (
+                                                           FIN, REM.format(e=E, p="(pulled(flow) if ind == 1 else _B)"))],
+                            decreases="n_of_active_seqs - ind"),
+                2: none,
+                3: LoopSpec(invariant=["stopped == _st3", "%s == %s" % (FIN, REM.format(e=E, p="_B + _i"))],
+                            init_ghost={"_st3": "stopped"}),
+                4: copy_out(4), 5: none, 6: none, 7: none,
+                8: LoopSpec(invariant=["_i <= n_of_active_seqs",
+                                       "n_of_active_seqs == 1 and _i == 0 implies len(out) == 0 and elstate(%s) == %s" % (E, FIN),
+                                       "n_of_active_seqs == 0 or _i == 1 implies " + DONE]),
+                9: none, 10: copy_out(10), 11: none, 12: none,
+            },
+            ensures=["len(out) == len({r})".format(r=RES.replace("state_in(_S0, %s)" % E, "old(elstate(%s))" % E)),
+                     "all(out[q] == {r}[q] for q in range(len(out)))".format(
+                         r=RES.replace("state_in(_S0, %s)" % E, "old(elstate(%s))" % E)),
+                     "pulled(flow) == %s" % N],
+            modifies=["flow"]))
+
+
+def _one_branch(ix, tag, kind, props, whole, loops, res, requires=(), notes=""):
+    E = "self._seqs[0]"
+    r = res.replace("state_in(_S0, %s)" % E, "old(elstate(%s))" % E)
+    ix.add(Contract(
+        SP, "Split.run", qualkey="Split.run#" + tag.replace(", ", "-").replace(" ", "-").replace("/", "-"),
+        name="Split.run[%s]" % tag, props=props,
+        params={"self": "Self[Split_whole]" if whole else "Self[Split]", "flow": "Iter[V]"}, generator=True, yields="V",
+        ghost={"elstate": True},
+        requires=["pulled(flow) == 0", "len(self._seqs) == 1", "self._seq_types[0] == '%s'" % kind] + list(requires),
+        loops=loops,
+        ensures=["len(out) == len(%s)" % r, "all(out[q] == %s[q] for q in range(len(out)))" % r, "pulled(flow) == %s" % N],
+        modifies=["flow"], notes=notes))
+
+
+def register_run_one_source(ix):
+    """run: `If a sequence is a Source, it doesn't accept the incoming flow, but produces its own complete flow and becomes
+    inactive`: a Split whose only branch is a Source yields exactly the flow of that Source (once), whatever the input flow
+    and bufsize."""
+    E = "self._seqs[0]"
+    RES = "el_source(%s)" % E
+    DONE = "(len(out) == len({r}) and all(out[q] == {r}[q] for q in range(len(out))))".format(r=RES)
+    SHAPE = ["0 <= n_of_active_seqs <= 1", "n_of_active_seqs == len(%s)" % A, "n_of_active_seqs == len(%s)" % TY,
+             "n_of_active_seqs == 1 implies %s[0] is %s and %s[0] == 'source' and len(out) == 0" % (A, E, TY),
+             "n_of_active_seqs == 0 implies " + DONE]
+    copy_out = lambda k: LoopSpec(invariant=["len(out) == _i", "all(out[q] == content(loop_iter(%d))[q] for q in range(_i))" % k])
+    none = LoopSpec(invariant=[])
+    for whole in (False, True):
+        _one_branch(ix, "one Source branch" + (", bufsize None" if whole else ""), "source", ["C03"], whole, {
+            0: LoopSpec(invariant=SHAPE + ["n_of_active_seqs == 1 implies flow_was_empty"],
+                        decreases="len(content(flow)) - pulled(flow)"),
+            1: LoopSpec(invariant=SHAPE + ["0 <= ind <= n_of_active_seqs", "n_of_active_seqs == 1 implies ind == 0"],
+                        decreases="n_of_active_seqs - ind"),
+            2: copy_out(2), 3: none, 4: none, 5: none, 6: none, 7: none,
+            8: LoopSpec(invariant=["_i <= n_of_active_seqs", "n_of_active_seqs == 1 and _i == 0 implies len(out) == 0",
+                                   "n_of_active_seqs == 0 or _i == 1 implies " + DONE]),
+            9: copy_out(9), 10: none, 11: none, 12: none}, RES)
+
+
+def register_run_one_fr(ix):
+    """run: `A FillRequestSeq is filled with the buffer contents.  After the buffer is finished, it yields all values from
+    request()` / C05: with the whole flow in one block (bufsize None, or at least the length of the flow) a Split whose only
+    branch is a fill/request sequence e yields exactly request() of e filled with the flow until it stops -- also on an
+    empty flow."""
+    E = "self._seqs[0]"
+    FIN = FINAL.format(e=E)
+    RES = "el_request(%s, %s)" % (E, FIN)
+    DONE = "(len(out) == len({r}) and all(out[q] == {r}[q] for q in range(len(out))))".format(r=RES)
+    FRESH = "len(out) == 0 and elstate({e}) == state_in(_S0, {e})".format(e=E)
+    SHAPE = ["0 <= n_of_active_seqs <= 1", "n_of_active_seqs == len(%s)" % A, "n_of_active_seqs == len(%s)" % TY,
+             "n_of_active_seqs == 1 implies %s[0] is %s and %s[0] == 'fill_request'" % (A, E, TY)]
+    copy_out = lambda k: LoopSpec(invariant=["len(out) == _i", "all(out[q] == content(loop_iter(%d))[q] for q in range(_i))" % k])
+    none = LoopSpec(invariant=[])
+    for whole in (False, True):
+        _one_branch(ix, "one fill/request branch, " + ("bufsize None" if whole else "one block"), "fill_request", ["C05", "C03"],
+                    whole, {
+            0: LoopSpec(invariant=SHAPE + ["flow_was_empty implies pulled(flow) == 0 and n_of_active_seqs == 1 and " + FRESH,
+                                           "not flow_was_empty implies pulled(flow) == %s and %s" % (N, DONE)],
+                        init_ghost={"_S0": "elstates()"}, body_ghost={"_B": "pulled(flow)"}, ghost={"_B": "Int"},
+                        decreases="len(content(flow)) - pulled(flow)"),
+            1: LoopSpec(invariant=SHAPE + BLOCK + ["0 <= ind <= n_of_active_seqs", "len(orig_buf) >= 1", "_B == 0",
+                                                   "pulled(flow) == %s" % N, "not flow_was_empty",
+                                                   "n_of_active_seqs == 1 and ind == 0 implies " + FRESH,
+                                                   "n_of_active_seqs == 0 or ind == 1 implies " + DONE],
+                        decreases="n_of_active_seqs - ind"),
+            2: none, 3: none, 4: none,
+            5: LoopSpec(invariant=["stopped == _st5", "len(out) == 0", "%s == %s" % (FIN, REM.format(e=E, p="_i"))],
+                        init_ghost={"_st5": "stopped"}),
+            6: copy_out(6), 7: none,
+            8: LoopSpec(invariant=["_i <= n_of_active_seqs", "not flow_was_empty implies " + DONE,
+                                   "flow_was_empty and _i == 0 implies " + FRESH,
+                                   "flow_was_empty and _i == 1 implies " + DONE]),
+            9: none, 10: none, 11: copy_out(11), 12: none}, RES,
+            requires=[] if whole else ["%s <= self._bufsize" % N],
+            notes="the whole flow fits into one block")
+
+
+# ---------------------------------------------------------------------------------------------- common-type methods
+def register_common_type(ix):
+    """Split.__init__: `If each sequence from seqs has a common type, Split creates methods corresponding to this type ...
+    fill fills all its subsequences (with copies if copy_buf is True), and compute yields values from all sequences in turn
+    (as would also do request or Source.__call__)`."""
+    S = "self._seqs"
+    OLD = "old(elstate(%s[{k}]))" % S
+    STOPS_UPTO = "any(el_fill_stops(%s[m], %s, val) for m in range(k + 1))" % (S, OLD.format(k="m"))
+    # branch k is filled iff neither it nor a branch before it signals LenaStopFill (the exception ends the method)
+    FILLED = ("all(elstate({s}[k]) == ({old} if {stops} else el_fill({s}[k], {old}, val)) for k in range(len({s})))"
+              .format(s=S, old=OLD.format(k="k"), stops=STOPS_UPTO))
+    ix.add(Contract(
+        SP, "Split._fill", qualkey="Split._fill#state", name="Split._fill[states]", props=["C03", "C05"],
+        params={"self": "Self[Split]", "val": "V"}, result=None, ghost={"elstate": True},
+        requires=["len(%s) >= 1" % S, DISTINCT.format(l=S)],
+        # the exception of a branch is not handled here: it ends fill (the branches after it are not filled)
+        raises={"LenaStopFill": "any(el_fill_stops({s}[k], elstate({s}[k]), val) for k in range(len({s})))".format(s=S)},
+        exc_ensures={"LenaStopFill": [FILLED]},
+        loops={0: LoopSpec(invariant=[
+            "all(elstate({s}[k]) == (el_fill({s}[k], {old}, val) if k < _i else {old}) for k in range(len({s})))".format(
+                s=S, old=OLD.format(k="k")),
+            "all(not el_fill_stops({s}[k], {old}, val) for k in range(_i))".format(s=S, old=OLD.format(k="k"))])},
+        at_call={"fill": ["call_args[0] == val", "in_loop(0) implies call_self is %s[_i]" % S,
+                          "not in_loop(0) implies call_self is %s[len(%s) - 1]" % (S, S)]},
+        ensures=["all(elstate({s}[k]) == el_fill({s}[k], {old}, val) for k in range(len({s})))".format(s=S, old=OLD.format(k="k"))],
+        notes="branches are pairwise different objects; flow values of the abstract sort V (copy.deepcopy of one is the value)"))
+    # C04: `fill fills all its subsequences (with copies if copy_buf is True)`: the context dictionary every branch but the
+    # last receives is a DEEP copy made for it in this very iteration (contracts/C03.py: a new object per iteration)
+    ix.add(Contract(
+        SP, "Split._fill", qualkey="Split._fill#copies", name="Split._fill[deep copies]", props=["C04"],
+        params={"self": "Self[Split]", "val": "Tuple[V,Dict]"}, result=None, ghost={"elstate": True},
+        requires=["len(%s) >= 1" % S], raises={"LenaStopFill": "?"},
+        loops={0: LoopSpec(invariant=["val[1] == old(val[1])"])},
+        at_call={"fill": ["in_loop(0) and self._copy_buf implies is_deep_copy(call_args[0][1]) and made_in_iteration(call_args[0][1], 0)",
+                          "call_args[0][0] == val[0]", "call_args[0][1] == old(val[1])"]},
+        ensures=["val[1] == old(val[1])"]))
+
+    ix.add(Contract(
+        SP, "Split._compute", props=["C03"],
+        params={"self": "Self[Split]"}, generator=True, yields="V", ghost={"elstate": True},
+        loops={0: LoopSpec(invariant=cat_spec("'fill_compute'", S, "elstates()", "_i")), 1: yield_all(1)},
+        ensures=cat_spec("'fill_compute'", S, "elstates()", "len(%s)" % S, with_chain=False) + ["elstates() == old(elstates())"]))
+    REQ = "el_request_state({s}[k], state_in({snap}, {s}[k]))"
+    ix.add(Contract(
+        SP, "Split._request", props=["C03"],
+        params={"self": "Self[Split]"}, generator=True, yields="V", ghost={"elstate": True},
+        requires=[DISTINCT.format(l=S)],
+        loops={0: LoopSpec(invariant=cat_spec("'fill_request'", S, "_S0", "_i") + [
+                               "all(elstate({s}[k]) == ({req} if k < _i else state_in(_S0, {s}[k])) for k in range(len({s})))".format(
+                                   s=S, req=REQ.format(s=S, snap="_S0"))],
+                           init_ghost={"_S0": "elstates()"}),
+               1: yield_all(1)},
+        # every branch is requested once, in the state it had at entry
+        ensures=cat_spec("'fill_request'", S, "old(elstates())", "len(%s)" % S, with_chain=False) + [
+            "all(elstate({s}[k]) == {req} for k in range(len({s})))".format(s=S, req=REQ.format(s=S, snap="old(elstates())"))],
+        notes="branches are pairwise different objects"))
+    CT = "lena/core/check_sequence_type.py"
+    if (CT, "is_source") not in ix.by_key:
+        ix.add(Contract(CT, "is_source", props=[], params={"seq": "Obj"}, result="Bool", inline=True))
+    ix.add_class(ClassSpec("Split_callable", SP, alias_of="Split", fields={"_seqs": "Lst[Obj]", "_n_seq_types": "Int"},
+                           # _n_seq_types is the number of different kinds among the branches (Split.__init__)
+                           invariant=["self._n_seq_types == 1 implies len(self._seqs) >= 1"]))
+    ix.add(Contract(
+        SP, "Split.__call__", props=["C03"],
+        params={"self": "Self[Split_callable]"}, generator=True, yields="V", ghost={"elstate": True},
+        # `available only if each self sequence is a Source, otherwise runtime LenaAttributeError is raised`
+        raises={"LenaAttributeError": "self._n_seq_types != 1 or not is_instance_of(self._seqs[0], 'Source')"},
+        loops={0: LoopSpec(invariant=cat_spec("'source'", S, "elstates()", "_i")), 1: yield_all(1)},
+        # `Each initialization sequence generates flow.  After its flow is empty, next sequence is called, etc.`
+        ensures=cat_spec("'source'", S, "elstates()", "len(%s)" % S, with_chain=False)))
+
+
+# ---------------------------------------------------------------------------------------------- Zip
+def register_zip(ix):
+    """C03: `a Zip of such branches yields the tuples of their i-th results` (stops at the shortest); C04: every branch of a
+    Zip is filled with its own deep copy."""
+    FF = "lena/flow/functions.py"
+    S = "self._sequences"
+    OLD = "old(elstate(%s[{k}]))" % S
+    STOPS_UPTO = "any(el_fill_stops(%s[m], %s, val) for m in range(k + 1))" % (S, OLD.format(k="m"))
+    FILLED = ("all(elstate({s}[k]) == ({old} if {stops} else el_fill({s}[k], {old}, val)) for k in range(len({s})))"
+              .format(s=S, old=OLD.format(k="k"), stops=STOPS_UPTO))
+    ix.add(Contract(
+        ZP, "Zip._fill", qualkey="Zip._fill#state", name="Zip._fill[states]", props=["C03"],
+        params={"self": "Self[Zip]", "val": "V"}, result=None, ghost={"elstate": True},
+        requires=[DISTINCT.format(l=S)],
+        raises={"LenaStopFill": "any(el_fill_stops({s}[k], elstate({s}[k]), val) for k in range(len({s})))".format(s=S)},
+        exc_ensures={"LenaStopFill": [FILLED]},
+        loops={0: LoopSpec(invariant=[
+            "all(elstate({s}[k]) == (el_fill({s}[k], {old}, val) if k < _i else {old}) for k in range(len({s})))".format(
+                s=S, old=OLD.format(k="k")),
+            "all(not el_fill_stops({s}[k], {old}, val) for k in range(_i))".format(s=S, old=OLD.format(k="k"))])},
+        at_call={"fill": ["call_args[0] == val", "call_self is %s[_i]" % S]},
+        ensures=["all(elstate({s}[k]) == el_fill({s}[k], {old}, val) for k in range(len({s})))".format(s=S, old=OLD.format(k="k"))],
+        notes="branches are pairwise different objects; flow values of the abstract sort V"))
+    # C04: `each ... Zip branch works on a private deep copy`
+    ix.add(Contract(
+        ZP, "Zip._fill", qualkey="Zip._fill#copies", name="Zip._fill[deep copies]", props=["C04"],
+        params={"self": "Self[Zip]", "val": "Tuple[V,Dict]"}, result=None, ghost={"elstate": True},
+        raises={"LenaStopFill": "?"},
+        loops={0: LoopSpec(invariant=["val[1] == old(val[1])"])},
+        at_call={"fill": ["is_deep_copy(call_args[0][1]) and made_in_iteration(call_args[0][1], 0)",
+                          "call_args[0][0] == val[0]", "call_args[0][1] == old(val[1])"]},
+        ensures=["val[1] == old(val[1])"]))
+    ix.add(Contract(
+        ZP, "Zip._reset", props=["C03"],
+        params={"self": "Self[Zip]"}, result=None, ghost={"elstate": True},
+        loops={0: LoopSpec(invariant=["all(elstate({s}[k]) == el_reset({s}[k]) for k in range(_i))".format(s=S)])},
+        at_call={"reset": ["call_self is %s[_i]" % S]},
+        ensures=["all(elstate({s}[k]) == el_reset({s}[k]) for k in range(len({s})))".format(s=S)]))
+    # ---- _yield: the data part of a result (a (data, context) pair or bare data: lena.flow.functions.get_data_context)
+    DATA = "(vdata({v}) if v_has_context({v}) else {v})"
+    ix.add(Contract(ZP, "Zip._create_data", props=[], params={"self": "Any", "values": "Any"}, inline=True))
+    ix.add_class(ClassSpec("Zip_any", ZP, alias_of="Zip", fields={}))
+    ix.add(Contract(ZP, "Zip._create_context", props=[], trusted=True,
+                    params={"self": "Self[Zip_any]", "values": "Any"}, result="Dict",
+                    notes="assumed at the call in Zip._yield: the context of a zipped value (intersection / difference of the "
+                          "branches' contexts, the subject of C07) is some dictionary"))
+
+    def yield_case(n):
+        rs = ["results[%d]" % k for k in range(n)]
+        cur = ["content(%s)[yield_count()]" % r for r in rs]
+        tup = "(" + ", ".join(DATA.format(v=c) for c in cur) + ("," if n == 1 else "") + ")"
+        return Contract(
+            ZP, "Zip._yield", name="Zip._yield[%d branches]" % n,
+            params={"self": "Self[Zip_%d]" % n, "results": "PyList[%d,Iter[V]]" % n}, generator=True, yields="Any",
+            requires=["pulled(%s) == 0" % r for r in rs],
+            loops={0: LoopSpec(invariant=["pulled(%s) == yield_count()" % r for r in rs] +
+                                         ["yield_count() <= len(content(%s))" % r for r in rs],
+                               decreases="len(content(results[0])) - pulled(results[0])")},
+            at_yield=[
+                # the k-th value is made of the k-th results of ALL the branches: every branch still has one
+                " and ".join("yield_count() < len(content(%s))" % r for r in rs),
+                # its data part is the tuple of their data parts, in branch order
+                "context implies len(yielded) == 2 and yielded[0] == %s and yielded[1] is context" % tup,
+                "not context implies yielded == %s" % tup],
+            # `stop on shortest sequence`
+            ensures=[" or ".join("yield_count() == len(content(%s))" % r for r in rs)] +
+                    ["yield_count() <= len(content(%s))" % r for r in rs],
+            modifies=rs)
+
+    def yield_summary(n):
+        rs = ["results[%d]" % k for k in range(n)]
+        return Contract(
+            ZP, "Zip._yield", qualkey="Zip_%dc._yield" % n, name="Zip._yield[%d branches, summary for callers]" % n, props=[],
+            trusted=True,
+            params={"self": "Self[Zip_%dc]" % n, "results": "PyList[%d,Iter[V]]" % n}, generator=True, yields="V",
+            requires=["pulled(%s) == 0" % r for r in rs],
+            ensures=[" or ".join("len(out) == len(content(%s))" % r for r in rs)] +
+                    ["len(out) <= len(content(%s))" % r for r in rs],
+            notes="the number of zipped values, as proved for Zip._yield[%d branches] (there the values are tuples; here they "
+                  "are opaque flow values: callers only hand them on)" % n)
+
+    for n in (1, 2, 3):
+        ix.add_class(ClassSpec("Zip_%d" % n, ZP, alias_of="Zip", fields={"_namedtuple": "None"}))
+        ix.add_class(ClassSpec("Zip_%dc" % n, ZP, alias_of="Zip", fields={"_sequences": "PyList[%d,Obj]" % n}))
+        ix.add(yield_summary(n))
+    ix.add(Contract(ZP, "Zip._yield", props=["C03"], cases=[yield_case(1), yield_case(2), yield_case(3)]))
+
+    def driver(meth, n):
+        rs = ["el_%s(%s[%d], old(elstate(%s[%d])))" % (meth, S, k, S, k) for k in range(n)]
+        req = ["all(all(implies(i != j, {l}[i] is not {l}[j]) for j in range(%d)) for i in range(%d))".format(l=S) % (n, n)] \
+            if meth == "request" else []
+        return Contract(
+            ZP, "Zip._%s" % meth, name="Zip._%s[%d branches]" % (meth, n),
+            params={"self": "Self[Zip_%dc]" % n}, generator=True, yields="V", ghost={"elstate": True}, requires=req,
+            # what is zipped: the k-th iterator is the result of the k-th branch
+            loops={1: LoopSpec(invariant=["len(out) == _i"] + ["same(content(results[%d]), %s)" % (k, r) for k, r in enumerate(rs)])},
+            # every branch is asked once, in branch order, before anything is zipped
+            at_call={meth: ["call_self is %s[len(results)]" % S, "len(out) == 0"]},
+            # as many values as the shortest branch delivers
+            ensures=[" or ".join("len(out) == len(%s)" % r for r in rs)] + ["len(out) <= len(%s)" % r for r in rs],
+            notes="the zipped values themselves: Zip._yield")
+    for meth in ("compute", "request"):
+        ix.add(Contract(ZP, "Zip._%s" % meth, props=["C03"], cases=[driver(meth, 1), driver(meth, 2), driver(meth, 3)]))
+
+
+# ---------------------------------------------------------------------------------------------- branch conversion (C05)
+CT = "lena/core/check_sequence_type.py"
+FCF = "lena/core/fill_compute_seq.py"
+FRF = "lena/core/fill_request_seq.py"
+IS_FC = "(has_attr({e}, 'fill') and has_attr({e}, 'compute') and callable_m({e}, 'fill') and callable_m({e}, 'compute'))"
+IS_FR = "(has_attr({e}, 'fill') and has_attr({e}, 'request') and callable_m({e}, 'fill') and callable_m({e}, 'request'))"
+HAS_RUN = "(has_attr({e}, 'run') and callable_m({e}, 'run'))"
+# what Sequence accepts as an element (contracts/C01.py: Sequence.__init__)
+SEQ_EL = "(" + HAS_RUN + " or callable({e}) or " + IS_FC + ")"
+CLASSES = ("Source", "FillComputeSeq", "FillRequestSeq", "Sequence")
+KIND_OF_CLASS = {"Source": "source", "FillComputeSeq": "fill_compute", "FillRequestSeq": "fill_request", "Sequence": "sequence"}
+
+
+def as_sequence(r, e, k):
+    """item k of the data sequence of the new Sequence `r` stands for the element `e` (C01 / C05: an element with run is
+    taken as it is, any other one is wrapped into the Run adapter of that very element)"""
+    hr = HAS_RUN.format(e=e)
+    return ["implies(%s, %s._data_seq[%d] is %s)" % (hr, r, k, e),
+            "implies(not %s, is_instance_of(%s._data_seq[%d], 'Run') and %s._data_seq[%d]._el is %s)" % (hr, r, k, r, k, e)]
+
+
+def register_conversion(ix):
+    """_get_seq_with_type: `Return a (sequence, type) pair.  Sequence is derived from seq (or is seq, if that is of a sequence
+    type)`; Split.__init__: `seqs must be a list of Sequence, Source, FillComputeSeq or FillRequestSeq sequences` -- anything
+    else is converted: `If no explicit type is given, check seq's methods`."""
+    for fn in ("is_fill_compute_seq", "is_fill_request_seq", "is_source"):
+        if (CT, fn) not in ix.by_key:
+            ix.add(Contract(CT, fn, props=[], params={"seq": "Any"}, inline=True))
+    # callers (Split.__init__, Zip.__init__) execute the conversion in place: every path of it is explored for every branch
+    ix.add(Contract(SP, "_get_seq_with_type", props=[], params={"seq": "Any", "bufsize": "Any"}, inline=True))
+    # ---- constructors of the two fill sequences: assumed (they are not under contract); ghost fields record the arguments
+    for n in (1, 2):
+        objs = ",".join(["Obj"] * n)
+        ix.add_class(ClassSpec("FillComputeSeq_a%d" % n, FCF, alias_of="FillComputeSeq", fields={"_seq": "PyList[%d,Obj]" % n}))
+        ix.add_class(ClassSpec("FillRequestSeq_a%d" % n, FRF, alias_of="FillRequestSeq",
+                               fields={"_g_args": "PyList[%d,Obj]" % n, "_g_bufsize": "Int", "_g_reset": "Bool",
+                                       "_g_buffer_input": "Bool"}))
+    ix.add(Contract(FCF, "FillComputeSeq.__init__", props=[], trusted=True, cases=[
+        Contract(FCF, "FillComputeSeq.__init__", name="FillComputeSeq.__init__[%d elements, assumed]" % n, trusted=True,
+                 params={"self": "Self[FillComputeSeq_a%d]" % n, "args": "Tuple[%s]" % ",".join(["Obj"] * n)}, vararg="args",
+                 raises={"LenaTypeError": "?"},
+                 ensures=["self._seq[%d] is args[%d]" % (k, k) for k in range(n)], modifies=["self._seq"],
+                 notes="assumed: LenaSequence.__init__ keeps the arguments as self._seq; may raise LenaTypeError")
+        for n in (1, 2)]))
+    ix.add(Contract(FRF, "FillRequestSeq.__init__", props=[], trusted=True, cases=[
+        Contract(FRF, "FillRequestSeq.__init__", name="FillRequestSeq.__init__[%d elements, assumed]" % n, trusted=True,
+                 params={"self": "Self[FillRequestSeq_a%d]" % n, "args": "Tuple[%s]" % ",".join(["Obj"] * n),
+                         "kwargs": "KwDict[bufsize:Int,reset:Bool,buffer_input:Bool]"}, vararg="args", kwarg="kwargs",
+                 raises={"LenaTypeError": "?", "LenaValueError": "?"},
+                 ensures=["self._g_args[%d] is args[%d]" % (k, k) for k in range(n)] + [
+                     "self._g_bufsize == kwargs['bufsize']", "self._g_reset == kwargs['reset']",
+                     "self._g_buffer_input == kwargs['buffer_input']"],
+                 modifies=["self._g_args", "self._g_bufsize", "self._g_reset", "self._g_buffer_input"],
+                 notes="assumed: the constructor is not under contract; the ghost fields _g_* record its arguments")
+        for n in (1, 2)]))
+    # ---- one element
+    INST = {c: "is_instance_of(seq, '%s')" % c for c in CLASSES}
+    ANY_CLASS = "(" + " or ".join(INST[c] for c in CLASSES) + ")"
+    NOT_ITER = "(not has_attr(seq, '__iter__') and not has_attr(seq, '__getitem__'))"
+    fc, fr = IS_FC.format(e="seq"), IS_FR.format(e="seq")
+    ens, before = [], []
+    for c in CLASSES:          # an explicit sequence type wins, in this order
+        cond = " and ".join(["not " + b for b in before] + [INST[c]])
+        ens.append("%s implies result[0] is seq and result[1] == '%s'" % (cond, KIND_OF_CLASS[c]))
+        before.append(INST[c])
+    NOCLASS = "not " + ANY_CLASS
+    ens += ["%s and %s implies result[0] is seq and result[1] == 'fill_compute'" % (NOCLASS, fc),
+            "%s and not %s and %s implies result[0] is seq and result[1] == 'fill_request'" % (NOCLASS, fc, fr),
+            "%s and not %s and not %s implies result[1] == 'sequence' and is_instance_of(result[0], 'Sequence') "
+            "and len(result[0]._data_seq) == 1" % (NOCLASS, fc, fr)]
+    ens += ["%s and not %s and not %s implies (%s)" % (NOCLASS, fc, fr, cl) for cl in as_sequence("result[0]", "seq", 0)]
+    element = Contract(
+        SP, "_get_seq_with_type", name="_get_seq_with_type[one element]",
+        params={"seq": "Obj", "bufsize": "Int"}, result="Tuple[Any,Str]",
+        requires=["%s or %s" % (ANY_CLASS, NOT_ITER), "not isinstance(seq, tuple)", "not has_attr(seq, '_has_no_data')"],
+        # everything but a sequence object, a fill/compute or fill/request element, an element with run and a callable
+        raises={"LenaTypeError": "not (%s or %s or %s or %s)" % (ANY_CLASS, fc, fr, SEQ_EL.format(e="seq"))},
+        ensures=ens,
+        notes="an element that is not iterable (or an object of one of the four sequence classes)")
+
+    # ---- a tuple of two elements
+    def pair(bty):
+        e0, e1 = "seq[0]", "seq[1]"
+        anyfc = "(%s or %s)" % (IS_FC.format(e=e0), IS_FC.format(e=e1))
+        anyfr = "(%s or %s)" % (IS_FR.format(e=e0), IS_FR.format(e=e1))
+        plain = "not %s and not %s" % (anyfc, anyfr)
+        bad = "not %s or not %s" % (SEQ_EL.format(e=e0), SEQ_EL.format(e=e1))
+        bs = "1" if bty == "None" else "bufsize"
+        return Contract(
+            SP, "_get_seq_with_type", name="_get_seq_with_type[tuple of two elements, bufsize %s]" % bty,
+            params={"seq": "Tuple[Obj,Obj]", "bufsize": bty}, result="Tuple[Any,Str]",
+            requires=["not has_attr(seq[0], '_has_no_data')", "not has_attr(seq[1], '_has_no_data')"],
+            raises={"LenaTypeError": "?", "LenaValueError": "?"},
+            # a tuple without a fill element is refused exactly when Sequence refuses one of its elements; LenaValueError can
+            # only come from the constructor of FillRequestSeq (bufsize is validated by Split.__init__ after the conversion)
+            exc_ensures={"LenaTypeError": ["%s or %s or %s" % (anyfc, anyfr, bad)],
+                         "LenaValueError": ["not %s and %s" % (anyfc, anyfr)]},
+            ensures=[
+                "%s implies not (%s)" % (plain, bad),
+                # a FillCompute element in the tuple: FillComputeSeq of the elements of the tuple
+                "%s implies result[1] == 'fill_compute' and is_instance_of(result[0], 'FillComputeSeq') and "
+                "result[0]._seq[0] is seq[0] and result[0]._seq[1] is seq[1]" % anyfc,
+                # else a FillRequest element: FillRequestSeq of them, `bufsize=1 if bufsize is None else bufsize`, the
+                # FillRequest element `decides itself when to reset`, filled `without a buffer`
+                "not %s and %s implies result[1] == 'fill_request' and is_instance_of(result[0], 'FillRequestSeq') and "
+                "result[0]._g_args[0] is seq[0] and result[0]._g_args[1] is seq[1] and result[0]._g_bufsize == %s and "
+                "not result[0]._g_reset and result[0]._g_buffer_input" % (anyfc, anyfr, bs),
+                # else a plain Sequence of the elements
+                "%s implies result[1] == 'sequence' and is_instance_of(result[0], 'Sequence') and "
+                "len(result[0]._data_seq) == 2" % plain] +
+                ["%s implies (%s)" % (plain, cl) for k in (0, 1) for cl in as_sequence("result[0]", "seq[%d]" % k, k)])
+    ix.add(Contract(SP, "_get_seq_with_type", qualkey="_get_seq_with_type#spec", props=["C05", "C03"],
+                    cases=[element, pair("Int"), pair("None")]))
+
+
+# ---------------------------------------------------------------------------------------------- Split.__init__
+def kind_clauses(e, kind_of, same_of, seq_of):
+    """clauses classifying the branch `e` (an element): its kind is `kind_of`, the stored branch `seq_of` is `e` itself
+    unless e is a plain element (then a new Sequence of it)"""
+    inst = {c: "is_instance_of(%s, '%s')" % (e, c) for c in CLASSES}
+    anyc = "(" + " or ".join(inst[c] for c in CLASSES) + ")"
+    fc, fr = IS_FC.format(e=e), IS_FR.format(e=e)
+    out, before = [], []
+    for c in CLASSES:
+        cond = " and ".join(["not " + b for b in before] + [inst[c]])
+        out.append("%s implies %s is %s and %s == '%s'" % (cond, seq_of, e, kind_of, KIND_OF_CLASS[c]))
+        before.append(inst[c])
+    out += ["not %s and %s implies %s is %s and %s == 'fill_compute'" % (anyc, fc, seq_of, e, kind_of),
+            "not %s and not %s and %s implies %s is %s and %s == 'fill_request'" % (anyc, fc, fr, seq_of, e, kind_of),
+            "not %s and not %s and not %s implies %s == 'sequence' and is_instance_of(%s, 'Sequence') and "
+            "len(%s._data_seq) == 1" % (anyc, fc, fr, kind_of, seq_of, seq_of)]
+    out += ["not %s and not %s and not %s implies (%s)" % (anyc, fc, fr, cl) for cl in as_sequence(seq_of, e, 0)]
+    return out
+
+
+def element_requires(e):
+    inst = " or ".join("is_instance_of(%s, '%s')" % (e, c) for c in CLASSES)
+    return ["(%s) or (not has_attr(%s, '__iter__') and not has_attr(%s, '__getitem__'))" % (inst, e, e),
+            "not isinstance(%s, tuple)" % e, "not has_attr(%s, '_has_no_data')" % e, "not has_attr(%s, 'alter_sequence')" % e]
+
+
+def convertible(e):
+    inst = " or ".join("is_instance_of(%s, '%s')" % (e, c) for c in CLASSES)
+    return "(%s or %s or %s or %s)" % (inst, IS_FC.format(e=e), IS_FR.format(e=e), SEQ_EL.format(e=e))
+
+
+def register_init(ix):
+    """Split.__init__: `seqs must be a list of Sequence, Source, FillComputeSeq or FillRequestSeq sequences.  If seqs is empty,
+    Split acts as an empty Sequence ...  bufsize must be a natural number or None ...  If each sequence from seqs has a common
+    type, Split creates methods corresponding to this type ...  In case of wrong initialization arguments, LenaTypeError or
+    LenaValueError is raised.`"""
+    MT = "lena/core/meta.py"
+    ix.add(Contract(MT, "alter_sequence", props=[], trusted=True, cases=[
+        Contract(MT, "alter_sequence", name="alter_sequence[element, assumed]", trusted=True,
+                 params={"seq": "Obj"}, result="Obj", result_alias="seq", requires=["not has_attr(seq, 'alter_sequence')"],
+                 notes="assumed (sequence alteration by meta elements is no subject of C03 - C05): an element, or a sequence "
+                       "object none of whose elements defines alter_sequence, is returned as it is"),
+        Contract(MT, "alter_sequence", name="alter_sequence[tuple of two elements, assumed]", trusted=True,
+                 params={"seq": "Tuple[Obj,Obj]"}, result="Tuple[Obj,Obj]", result_alias="seq",
+                 requires=["not has_attr(seq[0], 'alter_sequence')", "not has_attr(seq[1], 'alter_sequence')"],
+                 notes="assumed: a tuple of elements none of which defines alter_sequence is returned as it is")]))
+    # ---- LenaSplit.__init__: keeps the list of branches (the static context {} changes nothing)
+    ix.add_class(ClassSpec("LenaSplit0", SP, alias_of="LenaSplit", fields={}))
+    ix.add(Contract(SP, "LenaSplit.__init__", props=["C03"], cases=[
+        Contract(SP, "LenaSplit.__init__", name="LenaSplit.__init__[any list, as proved for a list of elements]", trusted=True,
+                 params={"self": "Self[LenaSplit0]", "seqs": "Any"}, ensures=["self._seqs is seqs"], modifies=["self._seqs"],
+                 notes="the case below, for callers whose list holds elements and new sequence objects"),
+        Contract(SP, "LenaSplit.__init__", name="LenaSplit.__init__[list of elements]", dict_model="Val",
+                 params={"self": "Self[LenaSplit0]", "seqs": "Lst[Obj]"}, ensures=["self._seqs is seqs", "seqs == old(seqs)"],
+                 modifies=["self._seqs"])]))
+    ix.classes["Split"].bases = ["LenaSplit"]
+    ix.add_class(ClassSpec("Split0", SP, alias_of="Split", fields={}, bases=["LenaSplit"]))
+    MOD = ["self._seq_types", "self._n_seq_types", "self.fill", "self.compute", "self.request", "self.run", "self._copy_buf",
+           "self._bufsize", "self._name", "self._seqs"]
+    T = "self._seq_types"
+
+    def common(n, bufsize_ok):
+        """the clauses that do not depend on the kind of branch"""
+        both = lambda k: " and ".join("%s[%d] == '%s'" % (T, i, k) for i in range(n)) if n else "False"
+        cl = ["len(self._seqs) == %d" % n, "len(%s) == %d" % (T, n), "self._copy_buf == copy_buf", bufsize_ok,
+              # `If seqs is empty, Split acts as an empty Sequence and yields all values it receives`; else the block schedule
+              "self.run is class_method(self, '%s')" % ("run" if n else "_empty_run")]
+        if n == 2:
+            cl.append("self._n_seq_types == (1 if %s[0] == %s[1] else 2)" % (T, T))
+        else:
+            cl.append("self._n_seq_types == %d" % n)
+        # common type: fill and compute / fill and request -- for these two types only, and only when ALL branches have it
+        cl += ["%s implies self.fill is class_method(self, '_fill') and self.compute is class_method(self, '_compute') "
+               "and not has_attr(self, 'request')" % both("fill_compute"),
+               "%s implies self.fill is class_method(self, '_fill') and self.request is class_method(self, '_request') "
+               "and not has_attr(self, 'compute')" % both("fill_request"),
+               "not (%s) and not (%s) implies not has_attr(self, 'fill') and not has_attr(self, 'compute') and "
+               "not has_attr(self, 'request')" % (both("fill_compute"), both("fill_request"))]
+        return cl
+
+    def init_case(n, bty):
+        els = ["seqs[%d]" % i for i in range(n)]
+        bad = " or ".join("not " + convertible(e) for e in els) or "False"
+        if bty == "None":
+            okb, raises = "self._bufsize is None", {"LenaTypeError": bad}
+        else:
+            okb = "self._bufsize == bufsize"
+            small = "bufsize < 1" if bty == "Int" else "(bufsize != int(bufsize) or bufsize < 1)"
+            # (a branch that cannot be converted is reported first)
+            raises = {"LenaTypeError": bad, "LenaValueError": "not (%s) and %s" % (bad, small)}
+        ens = common(n, okb)
+        for i, e in enumerate(els):
+            ens += kind_clauses(e, "%s[%d]" % (T, i), None, "self._seqs[%d]" % i)
+        return Contract(
+            SP, "Split.__init__", name="Split.__init__[%d element branch%s, bufsize %s]" % (n, "" if n == 1 else "es", bty),
+            params={"self": "Self[Split0]", "seqs": "PyList[%d,Obj]" % n, "bufsize": bty, "copy_buf": "Bool"},
+            requires=[r for e in els for r in element_requires(e)],
+            raises=raises, ensures=ens, modifies=MOD, max_paths=20000,
+            notes="branches that are elements / sequence objects (abstract); tuples: _get_seq_with_type")
+    def tuple_case(bty):
+        """one branch given as a tuple of two elements: `If no explicit type is given, check seq's methods`"""
+        e0, e1, r = "seqs[0][0]", "seqs[0][1]", "self._seqs[0]"
+        anyfc = "(%s or %s)" % (IS_FC.format(e=e0), IS_FC.format(e=e1))
+        anyfr = "(%s or %s)" % (IS_FR.format(e=e0), IS_FR.format(e=e1))
+        plain = "not %s and not %s" % (anyfc, anyfr)
+        bad = "not %s or not %s" % (SEQ_EL.format(e=e0), SEQ_EL.format(e=e1))
+        okb = "self._bufsize is None" if bty == "None" else "self._bufsize == bufsize"
+        exc = {"LenaTypeError": ["%s or %s or %s" % (anyfc, anyfr, bad)]}
+        if bty != "None":
+            exc["LenaValueError"] = ["bufsize < 1 or (not %s and %s)" % (anyfc, anyfr)]
+        else:
+            exc["LenaValueError"] = ["not %s and %s" % (anyfc, anyfr)]
+        return Contract(
+            SP, "Split.__init__", name="Split.__init__[one tuple branch, bufsize %s]" % bty,
+            params={"self": "Self[Split0]", "seqs": "PyList[1,Tuple[Obj,Obj]]", "bufsize": bty, "copy_buf": "Bool"},
+            requires=["not has_attr(%s, '_has_no_data')" % e for e in (e0, e1)] +
+                     ["not has_attr(%s, 'alter_sequence')" % e for e in (e0, e1)],
+            raises={"LenaTypeError": "?", "LenaValueError": "?"}, exc_ensures=exc,
+            ensures=common(1, okb) + [
+                "%s implies not (%s)" % (plain, bad)] + (["bufsize >= 1"] if bty != "None" else []) + [
+                "%s implies %s[0] == 'fill_compute' and is_instance_of(%s, 'FillComputeSeq') and "
+                "%s._seq[0] is %s and %s._seq[1] is %s" % (anyfc, T, r, r, e0, r, e1),
+                "not %s and %s implies %s[0] == 'fill_request' and is_instance_of(%s, 'FillRequestSeq') and "
+                "%s._g_args[0] is %s and %s._g_args[1] is %s and %s._g_bufsize == %s and not %s._g_reset and %s._g_buffer_input"
+                % (anyfc, anyfr, T, r, r, e0, r, e1, r, "1" if bty == "None" else "bufsize", r, r),
+                "%s implies %s[0] == 'sequence' and is_instance_of(%s, 'Sequence') and len(%s._data_seq) == 2" % (plain, T, r, r)] +
+                ["%s implies (%s)" % (plain, cl) for k, e in enumerate((e0, e1)) for cl in as_sequence(r, e, k)],
+            modifies=MOD)
+    ix.add(Contract(SP, "Split.__init__", props=["C03", "C05"], cases=[
+        init_case(0, "Int"), init_case(1, "Int"), init_case(1, "None"), init_case(1, "Real"), init_case(2, "Int"),
+        tuple_case("Int"), tuple_case("None"),
+        Contract(SP, "Split.__init__", name="Split.__init__[seqs is not a list]",
+                 params={"self": "Self[Split0]", "seqs": "Tuple[Obj]", "bufsize": "Int", "copy_buf": "Bool"},
+                 raises={"LenaTypeError": "True"})]))
+
+
+def register_zip_init(ix):
+    """Zip.__init__: `Sequences seqs must be of one common type` -- fill/compute or fill/request (`Like Split, but zip output
+    values into tuples`); the matching methods are installed; anything else: LenaTypeError (no sequence, a branch that cannot
+    be converted, different types) or LenaNotImplementedError (Sources, plain Sequences)."""
+    def kinds(e):
+        inst = {c: "is_instance_of(%s, '%s')" % (e, c) for c in CLASSES}
+        anyc = "(" + " or ".join(inst[c] for c in CLASSES) + ")"
+        fc, fr = IS_FC.format(e=e), IS_FR.format(e=e)
+        k = {"source": inst["Source"],
+             "fill_compute": "((not %s and %s) or (not %s and %s))" % (inst["Source"], inst["FillComputeSeq"], anyc, fc),
+             "fill_request": "((not %s and not %s and %s) or (not %s and not %s and %s))" % (
+                 inst["Source"], inst["FillComputeSeq"], inst["FillRequestSeq"], anyc, fc, fr)}
+        k["sequence"] = "(not %s and not %s and not %s)" % (k["source"], k["fill_compute"], k["fill_request"])
+        return k
+    ix.add_class(ClassSpec("Zip0", ZP, alias_of="Zip", fields={}))
+    MOD = ["self._sequences", "self.fill", "self.compute", "self.request", "self.reset", "self._name", "self._namedtuple",
+           "self._fields"]
+
+    def zip_case(n):
+        els = ["sequences[%d]" % i for i in range(n)]
+        ks = [kinds(e) for e in els]
+        bad = " or ".join("not " + convertible(e) for e in els)
+        allk = lambda k: "(" + " and ".join(x[k] for x in ks) + ")"
+        same = "(" + " or ".join(allk(k) for k in ("source", "fill_compute", "fill_request", "sequence")) + ")"
+        terr = "(%s or not %s)" % (bad, same)
+        ens = ["len(self._sequences) == %d" % n, "self._name == name", "self._namedtuple is None",
+               "%s implies self.fill is class_method(self, '_fill') and self.compute is class_method(self, '_compute') and "
+               "not has_attr(self, 'request') and not has_attr(self, 'reset')" % allk("fill_compute"),
+               "%s implies self.fill is class_method(self, '_fill') and self.request is class_method(self, '_request') and "
+               "self.reset is class_method(self, '_reset') and not has_attr(self, 'compute')" % allk("fill_request")]
+        for i, e in enumerate(els):
+            # fill/compute and fill/request elements and sequence objects are taken as they are
+            ens.append("self._sequences[%d] is %s" % (i, e))
+        return Contract(
+            ZP, "Zip.__init__", name="Zip.__init__[%d element branch%s, no fields]" % (n, "" if n == 1 else "es"),
+            params={"self": "Self[Zip0]", "sequences": "PyList[%d,Obj]" % n, "name": "Str", "fields": "PyList[0,Obj]"},
+            requires=[r for e in els for r in element_requires(e)[:3]],
+            raises={"LenaTypeError": terr,
+                    "LenaNotImplementedError": "not %s and not %s and not %s" % (terr, allk("fill_compute"), allk("fill_request"))},
+            ensures=ens, modifies=MOD, max_paths=20000)
+    ix.add(Contract(ZP, "Zip.__init__", props=["C03", "C05"], cases=[
+        zip_case(1), zip_case(2),
+        Contract(ZP, "Zip.__init__", name="Zip.__init__[no sequences]",
+                 params={"self": "Self[Zip0]", "sequences": "PyList[0,Obj]", "name": "Str", "fields": "PyList[0,Obj]"},
+                 # `at least one sequence must be given`
+                 raises={"LenaTypeError": "True"})]))
